@@ -135,16 +135,26 @@ def keptDims (f : SubModel → Bool) : List SubModel → Nat → List Nat
 
 def selectDims {α : Type} (dims : List Nat) (row : List α) : List α := dims.filterMap (row[·]?)
 
-/-- one row of `HierarchicalLogPosterior.sample_initial_parameters`:
+/-- one row of `HierarchicalLogPosterior.sample_initial_parameters` as it is:
     `topSample` = the row of `log_prior.sample(n)`, `popSample` = `population_model.sample(
-    parameters=topSample, n_samples=n_ids, ...)` of shape `(n_ids, n_dim)`.
-    `legacy = true`: special dimensions found with `isinstance` (the code as it is).
+    parameters=topSample, n_samples=n_ids, ...)` of shape `(n_ids, n_dim)`; the dimensions of
+    sub-models with `n_hierarchical_dim() == 0` are dropped, the rest is flattened row-major.
     numpy refuses `initial_params[:, :n_bottom] = ...` when the widths differ. -/
-def initRow {α : Type} (legacy : Bool) (subs : List SubModel) (nIds : Nat) (topSample : List α)
+def initRow {α : Type} (subs : List SubModel) (nIds : Nat) (topSample : List α)
     (popSample : List (List α)) : Except IErr (List α) :=
-  let dims := keptDims (fun m => if legacy then m.isInst else m.special) subs 0
+  let dims := keptDims (·.special) subs 0
   let bottom := (popSample.map (selectDims dims)).flatten
   -- `if n_bottom == 0: return initial_params` comes before the population model is sampled
+  if nIds * dims.length = 0 then .ok topSample
+  else if bottom.length ≠ nIds * dims.length then .error .valueError
+  else .ok (bottom ++ topSample)
+
+/-- the pre-fix row (1cc8bcf): special dimensions found with `isinstance` while the width of the
+    bottom block follows `n_hierarchical_dim()`; kept for the counterexample theorem -/
+def initRowLegacy {α : Type} (subs : List SubModel) (nIds : Nat) (topSample : List α)
+    (popSample : List (List α)) : Except IErr (List α) :=
+  let dims := keptDims (·.isInst) subs 0
+  let bottom := (popSample.map (selectDims dims)).flatten
   if nIds * (keptDims (·.special) subs 0).length = 0 then .ok topSample
   else if bottom.length ≠ nIds * (keptDims (·.special) subs 0).length then .error .valueError
   else .ok (bottom ++ topSample)
